@@ -163,7 +163,7 @@ def c12(tier_):
     lite = tier_ == 'quick'
     cfgs = [replay.mc_cfg(('d',), ('h1', 'h2'), lite=lite)]
     if tier_ == 'thorough':
-        cfgs.append(replay.mc_cfg(('d',), ('h1', 'h2', 'h3'), lite=True))
+        cfgs.append(replay.mc_cfg(('d',), ('h1', 'h2', 'h3'), lite=True, onein=6))      # model-checked in full; 1 in 6 of its 1.46 million transitions replayed
     cfgs.append(replay.mc_cfg(('d', 'ld'), ('h1',), lite=lite))
     execs, st, tr, uniq = [], 0, 0, 0
     apij = mk.api_json('exc')['cxx']
@@ -176,7 +176,7 @@ def c12(tier_):
     for _ in range(20 if tier_ == 'quick' else 200):
         execs.append(gen.gen_registry_random(rng, steps=120 if tier_ == 'quick' else 300))
     return run_trace_check('C12', tier_, execs, suite=True, relax=('live', 'memo'), level='model_checking',
-        rule='every transition of the bounded registry model (2 handles; 2 precisions x 1 handle; thorough: 3 handles) replayed on the real library with a concretisation drawn by seed, plus random long histories over 4 similar handles and both precisions; distinct = distinct (call, arguments) shapes executed',
+        rule='every transition of the bounded registry model (2 handles; 2 precisions x 1 handle; quick: reduced alphabet Lite, thorough: full alphabet) replayed on the real library with a concretisation drawn by seed; thorough: additionally the 3-handle Lite instance, model-checked in full by TLC, a random 1 in 6 of its transitions replayed; plus random long histories over 4 similar handles and both precisions; distinct = distinct (call, arguments) shapes executed',
         assumptions=COMMON_ASSUME, mc=dict(states=st, transitions=tr, distinct_transitions_replayed=uniq, exhaustive=True))
 
 
